@@ -62,7 +62,10 @@ ArraysAgree(m, r) ==
         /\ \A q \in 1..Len(m[i].cells) :
               m[i].cells[q].v.t = "o" \/ \E j \in 1..Len(r[i].cells) : r[i].cells[j].i = m[i].cells[q].i
 BpEq(m, r) == m.some = r.some /\ (m.some => (m.line = r.line /\ m.tok = r.tok))
-DataEq(m, r) == m.some = r.some /\ (m.some => (m.chunk = r.chunk /\ m.item = r.item))
+\* The abstract cursor is the position of the next item READ takes: "no cursor yet" and "at the
+\* first item of the first DATA statement" are the same position.
+DataPos(x) == IF x.some THEN <<x.chunk, x.item>> ELSE <<0, 0>>
+DataEq(m, r) == DataPos(m) = DataPos(r)
 InputEq(m, r) == m.some = r.some /\ (m.some => m.text = r.text)
 
 \* A model map f (name -> value) against a recorded sorted pair list r.
